@@ -1291,7 +1291,7 @@ def check_options(tier, seed, chk, prop):
         hits = {}
         for rec in r.log:
             if rec[0] == "HIT":
-                hits[rec[1]] = hits.get(rec[1], 0) + 1
+                hits[tuple(rec[1:5])] = hits.get(tuple(rec[1:5]), 0) + 1
         # display order = order of the tapped statistics; map through the painted tree
         roots, errors, header = parse_tree(r.out, True)
         want_root = expected_tree(model, opt_cases, "bench", "none", "kind", False, runner)
@@ -1300,16 +1300,16 @@ def check_options(tier, seed, chk, prop):
                 violation(res, dict(sig, **{"class": "malformed"}), "%s: %s" % (desc, errors[:2]), r)
             continue
         leaves = [(p, w) for p, w in tree_paths(want_root) if w.case is not None]
-        stats_by_bench = {}
+        stats_by_bench = {}   # keyed by case path (an args benchmark has one block per argument)
         for (p, w), st in zip(leaves, r.stats):
-            stats_by_bench.setdefault(w.case["bench"], []).append((p, st))
+            stats_by_bench.setdefault(w.case["path"], []).append((p, st))
         for c in opt_cases:
             b = benches[c["bench"]]
             calls, rows = expected_bench_mode(b, ncpu, runner)
             if calls is None:
                 res["excluded"] += 1
                 continue
-            got_calls = hits.get(str(b["id"]), 0)
+            got_calls = hits.get((str(b["id"]), c["arg"] if c["arg"] is not None else "-", c["type"] or "-", c["const"] or "-"), 0)
             if prop == "C03" or True:
                 if got_calls != calls:
                     violation(res, dict(sig, **{"class": "call-count", "bench": c["path"].split("::")[2]}),
@@ -1317,7 +1317,7 @@ def check_options(tier, seed, chk, prop):
                                   desc, c["path"], got_calls, runner.get("sample_count", b["effective"].get("sample_count")), runner.get("sample_size", b["effective"].get("sample_size")),
                                   runner.get("threads", b["effective"].get("threads")), b["options"], calls), r)
                     continue
-            got_rows = [(st["sample_count"], st["iter_count"]) for _, st in stats_by_bench.get(b["id"], [])]
+            got_rows = [(st["sample_count"], st["iter_count"]) for _, st in stats_by_bench.get(c["path"], [])]
             want_rows = [(sm, it) for _, sm, it in rows]
             if got_rows != want_rows:
                 violation(res, dict(sig, **{"class": "samples-iters", "bench": c["path"].split("::")[2]}),
@@ -1328,7 +1328,7 @@ def check_options(tier, seed, chk, prop):
             want_counters = [runner.get("bytes", effc.get("bytes_count")), runner.get("chars", effc.get("chars_count")), runner.get("cycles", effc.get("cycles_count")), runner.get("items", effc.get("items_count"))]
             if b.get("style") == "counter":
                 want_counters[3] = 7   # Bencher::counter(ItemsCount 7) replaces only its own kind
-            for _, st in stats_by_bench.get(b["id"], []):
+            for _, st in stats_by_bench.get(c["path"], []):
                 if st["sample_count"] == 0:
                     continue
                 got_counters = [cc["raw"][0] if cc is not None else None for cc in st["counters"]]
